@@ -763,6 +763,27 @@ def _real_path(solver, conds):
     return p
 
 
+def replay_sibling_scopes(r):
+    """native, real z3 solver: three successors of one state activated last-in first-out; each must be satisfiable for the solver"""
+    import halmos.__main__ as hm
+    import halmos.sevm as hs
+    from contracts.common import config
+
+    x = z3.BitVec("x", 256)
+    parent = hs.Path(hm.mk_solver(config()))
+    parent.append(z3.UGT(x, 5), branching=True)
+    kids = [parent.branch(x == 10 + k) for k in range(3)]
+    bad = []
+    for k in reversed(range(3)):
+        kids[k].activate()
+        res = kids[k].solver.check()
+        if res != z3.sat:
+            bad.append(f"successor {k} (x > 5 and x == {10 + k}): the shared solver answers {res} after its activation")
+    if bad:
+        return {"reproduced": True, "detail": "three successors created back to back by Path.branch, activated last-in first-out: " + "; ".join(bad) + " -- every later feasibility check on these paths is `unsat`, so the inputs x = 10, 11 are covered by no reported path", "inputs": "branch(x==10), branch(x==11), branch(x==12)"}
+    return {"reproduced": False, "detail": "each of the three successors is satisfiable for the shared solver after its activation"}
+
+
 def path_cases():
     import halmos.sevm as hs
 
@@ -824,6 +845,26 @@ def path_cases():
             ctx.oblige("what the solver holds afterwards are conditions of this path only", z3.BoolVal(all(any(a_.eq(cc) for cc in child.conditions) for a_ in visible)))
 
         out.append(Case(f"{PROP}/sevm.Path.activate", f"{extra} foreign scope(s) above", harness_activate, sources=("halmos.sevm:Path.activate",)))
+
+    def harness_siblings(interp):
+        """several successors created back to back from one state (size candidates, aliases, jump targets), then taken
+        from the worklist last-in first-out, each one running on (asserting more) before the next is activated"""
+        ctx = interp.ctx
+        x, y = z3.BitVecs("x y", 256)
+        solver = RecSolver()
+        parent = _real_path(solver, [(z3.UGT(x, 5), True)])
+        conds = [x == 10 + k for k in range(3)]
+        kids = [interp.call(hs.Path.__dict__["branch"], [parent, c], {}) for c in conds]
+        hs.Path.append(parent, y == 1, True)  # the live state goes on
+        for k in reversed(range(3)):
+            kid = kids[k]
+            interp.call(hs.Path.__dict__["activate"], [kid], {})
+            visible = [a_ for sc in solver.asserted for a_ in sc]
+            ctx.oblige(f"successor {k}: after its activation the solver holds conditions of this path only (nothing of a sibling activated before it)", z3.BoolVal(all(any(a_.eq(cc) for cc in kid.conditions) for a_ in visible)), info={"visible": [str(v) for v in visible]})
+            ctx.oblige(f"successor {k}: after its activation the solver holds every condition of this path", z3.BoolVal(all(any(a_.eq(cc) for a_ in visible) for cc in kid.conditions)))
+            hs.Path.append(kid, y == 20 + k, True)  # it runs on before the next one is taken
+
+    out.append(Case(f"{PROP}/sevm.Path.branch", "three successors back to back, activated last-in first-out", harness_siblings, replay=replay_sibling_scopes, sources=("halmos.sevm:Path.branch", "halmos.sevm:Path.activate")))
 
     def harness_stale(interp):
         ctx = interp.ctx
@@ -981,8 +1022,25 @@ def prank_funds_cases():
     return [Case(f"{PROP}/sevm.SEVM.call#funds-account", c.case, c.harness, replay=c.replay, sources=c.sources) for c in c14.call_prank_cases()]
 
 
+def extend_path_cases():
+    """every test and every invariant target call starts by extending the setUp / frontier path: if the child shared the
+    parent's condition table, the branches explored by one run would be `already decided` in the next (C11's unit)"""
+    from contracts import c11
+    from contracts.common import rewrap
+
+    return rewrap(PROP, c11.path_growth_cases(), "start-of-run-ownership", lambda c: "extend_path" in c.unit)
+
+
+def setup_selection_ref():
+    """a feasible setUp() path is not dropped because its feasibility query timed out (C10's unit)"""
+    from contracts import c10
+    from contracts.common import rewrap
+
+    return rewrap(PROP, c10.setup_selection_cases(), "timeout-keeps-the-path")
+
+
 def build_cases(tier="quick"):
-    return prank_funds_cases() + jumpi_cases() + check_cases() + select_cases() + calldataload_cases() + funds_cases() + alias_cases() + symbolic_jump_cases() + path_cases() + worklist_cases()
+    return setup_selection_ref() + extend_path_cases() + prank_funds_cases() + jumpi_cases() + check_cases() + select_cases() + calldataload_cases() + funds_cases() + alias_cases() + symbolic_jump_cases() + path_cases() + worklist_cases()
 
 
 ASSUMPTIONS = [
